@@ -194,7 +194,8 @@ def render(spec, rnd=None, style='plain', semis=None):
                 sym, num, alias = it
                 out.append(symtext(sym))
                 if num is not None:
-                    out.append(S(True) + str(num))
+                    # numbers are decimal however they are padded (column-aligned token tables: 007 008 009 010)
+                    out.append(S(True) + (('%0*d' % (rnd.choice([3, 4]), num)) if (num >= 0 and rnd.random() < 0.3) else str(num)))
                 if alias is not None:
                     out.append(S(True) + alias)
             elif kind == 'type':
